@@ -58,6 +58,19 @@ def tree(rng, depth, size=32):
             inner = tree(rng, depth - 1, 32)
             return ['S', ['S', inner, 0, 24] if rng.random() < 0.5 else inner, 8, 24]
         return leaf(rng, size)
+    if depth >= 2 and rng.random() < 0.012:
+        # a wide node: 17-40 operands of one commutative-associative operator (thresholds and caps on operand counts),
+        # with a few duplicates and constants; the variants re-nest and permute it
+        op = rng.choice(['+', '^', '^', '&', '|', '*'])
+        n = rng.choice([17, 18, 24, 33, 34, 40])
+        base = rng.choice(REG_RECIPES)
+        pool = [['M', ['O', '+', [base, r_int(4 * i)]], 32, None, False] for i in range(n)] + list(REG_RECIPES) + list(FRESH)
+        args = rng.sample(pool, n)
+        for _ in range(rng.choice([0, 1, 2])):
+            args.append(rng.choice(args))
+        for _ in range(rng.choice([0, 1, 2])):
+            args.insert(rng.randrange(len(args)), r_int(rng.choice(CONSTS)))
+        return ['O', op, args]
     k = rng.random()
     if k < 0.40:
         op = rng.choice(['+', '+', '+', '^', '&', '|', '*'])
